@@ -70,7 +70,8 @@ pub fn run(ctx: &mut Ctx, _replay: Option<&[String]>) {
     let singular = { let mut h = SparseMatrix::new(2, 4); h.insert(0, 0); h.insert(1, 1); h.insert(0, 2); h.insert(1, 2); h.alist() };
     let alists: Vec<(&str, String)> = vec![("valid", good.clone()), ("row-index-out-of-range", d2), ("truncated", good[..good.len() / 2].to_string()),
         ("empty", String::new()), ("not-a-number", good.replacen("12", "x", 1)), ("singular-tail", singular), ("unpadded", crate::c13::test_matrix().alist_no_padding())];
-    let names: Vec<String> = vec!["Phif64".into(), "HLAminstari8".into(), "Minstarapproxi8JonesPartialHardLimitDeg1Clip".into(), "phif64".into(), "".into(), "HLPhif64 ".into(), "Aminstari9".into()];
+    let names: Vec<String> = vec!["Phif64".into(), "HLAminstari8".into(), "Minstarapproxi8JonesPartialHardLimitDeg1Clip".into(), "phif64".into(), "".into(), "HLPhif64 ".into(), "Aminstari9".into(),
+        "Phif64\u{a0}".into(), "\u{feff}Phif64".into(), "Phif6\u{ff14}".into(), "Phi\u{e9}f64".into()];
     let puncts = ["", "1,0", "1,1,1,0", "1,,0", "2", "1,0,", " 1,0", "1;0", "0", "0,0", "01,1,0", "1,1,00", "+1,1,0", "1,1,-0", "1,1,0 ", "１,1,0"];
     for (an, a) in &alists {
         for name in &names {
